@@ -695,6 +695,44 @@ func engineC02(c *vctx) error {
 				c.Hist(fmt.Sprintf("cached-raw:%s:%s=%.8s", mode, k1, obs))
 				c.Case("cached-load-raw-"+t.String(), true, size, fmt.Sprintf("CRaw %s %s %s %s %s", c02FType(t), coqHex(id[:]), coqList(items), obs, coqNat(len(resps))),
 					fmt.Sprintf("cache=%s LoadRaw(%v,%s) backend script=%s,%s -> %.12s answers=%d", mode, t, id.Str(), k1, k2, obs, len(resps)))
+				if mode == "warm-flipped" {
+					// the same repository object again, cached copy damaged again: cache.Forget refuses to delete a file
+					// twice per process, so both answers are the damaged copy; the backend is not asked
+					good := c02ReadFile(e, t, id)
+					bad2 := append([]byte(nil), good...)
+					bad2[rng.intn(len(bad2))] ^= 0x40
+					p := cachePath(id)
+					if p == "" {
+						p = filepath.Join(filepath.Dir(cachePath(ids[0])), "..", id.String()[:2], id.String())
+						_ = os.MkdirAll(filepath.Dir(p), 0o700)
+					}
+					_ = os.Chmod(p, 0o600)
+					if err := os.WriteFile(p, bad2, 0o600); err == nil && cachePath(id) != "" {
+						alter.set(id.String(), []c02Action{{kind: "pass"}, {kind: "pass"}})
+						buf2, lerr2 := rc.LoadRaw(ctx, t, id)
+						back := alter.clear()
+						seq := []c02Resp{{data: bad2}}
+						if len(back) == 0 {
+							seq = append(seq, c02Resp{data: bad2})
+						} else {
+							seq = append(seq, back...)
+						}
+						var it2 []string
+						for _, rs := range seq {
+							it2 = append(it2, fmt.Sprintf("mkraw %s %s", c02Digest(rs.data), coqBool(rs.err)))
+						}
+						obs2 := "ORawErr"
+						switch {
+						case lerr2 == nil:
+							obs2 = "(ORawOk " + c02Digest(buf2) + ")"
+						case errors.Is(lerr2, restic.ErrInvalidData):
+							obs2 = "(ORawInvalid " + c02Digest(buf2) + ")"
+						}
+						c.Hist(fmt.Sprintf("cached-raw-breaker: backend-fetches=%d %.8s", len(back), obs2))
+						c.Case("cached-load-raw-breaker", true, size, fmt.Sprintf("CRaw %s %s %s %s %s", c02FType(t), coqHex(id[:]), coqList(it2), obs2, coqNat(len(seq))),
+							fmt.Sprintf("second damaged cached copy on the same repository object: LoadRaw(%v,%s) -> %.12s, backend fetches %d", t, id.Str(), obs2, len(back)))
+					}
+				}
 			}
 		}
 		// tree blobs live in cached (metadata) packs: damage the cached pack inside the blob, LoadBlob must
